@@ -37,11 +37,14 @@ def observe(o: Any) -> Any:
                         run.append([str(getattr(r.status, "value", r.status)), sorted((k, repr(v)) for k, v in r.values.items())])
                     except Exception as e:  # noqa: BLE001
                         run.append(["raised", type(e).__name__])
-        return {"graph": [observe(n) for n in o.nodes.values()], "bound": sorted((k, enc_val(v)) for k, v in spec.bound.items()),
+        return {"graph": [observe(n) for n in o.nodes.values()], "name": o.name, "bound": sorted((k, enc_val(v)) for k, v in spec.bound.items()),
                 "own_bound": None, "selected": list(o.selected) if o.selected is not None else None,
                 "entry": list(o.entrypoints_config) if o.entrypoints_config is not None else None,
                 "required": list(spec.required), "optional": list(spec.optional), "outputs": list(o.outputs), "hash": o.definition_hash, "run": run}
     d = {"node": o.name, "inputs": list(o.inputs), "outputs": list(o.outputs)}
+    inner = getattr(o, "graph", None)
+    if isinstance(inner, Graph):
+        d["graphName"] = inner.name        # the wrapped graph is shared with every sibling wrapper: its own name is part of what they see
     mc = getattr(o, "map_config", None)
     d["mapOver"] = list(mc[0]) if mc else None
     # behaviour: how current input names are routed to the wrapped callable / inner graph, and what the node computes on its own
@@ -90,13 +93,18 @@ class C07(Prop):
                      {"name": "f1", "inputs": ["o0", "y1"] if rng.random() < 0.5 else ["x"], "outputs": ["o1"], "defaults": {}}]
             yield {"nodes": nodes, "n_ops": rng.randint(1, 3), "seed": rng.randint(0, 10**6), "prefix": rng.choice([["addGate"], ["bind", "addGate"], ["select", "addGate"]]),
                    "lateGate": {"name": "gt", "target": rng.choice(["f0", "f1"]), "k": rng.choice([0, 1])}}
+        # whatever the seed: two bound names one of which CONTAINS the other (x / ax, k / top_k); releasing the longer one leaves the shorter bound
+        for short, long_ in (("x", "ax"), ("k", "top_k")):
+            nodes = [{"name": "f0", "inputs": [short, long_], "outputs": ["o0"], "defaults": {}},
+                     {"name": "f1", "inputs": ["o0", short], "outputs": ["o1"], "defaults": {}}]
+            yield {"nodes": nodes, "n_ops": rng.randint(0, 2), "seed": rng.randint(0, 10**6), "prefix": [f"bind:{short}", f"bind:{long_}", f"unbind:{long_}"]}
         # whatever the seed: the gated graph has been RUN, then with_entrypoint names the gate's target — the receiver keeps its routing
         for tgt in ("f0", "f1"):
             nodes = [{"name": "f0", "inputs": ["x"], "outputs": ["o0"], "defaults": {}},
                      {"name": "f1", "inputs": ["x"], "outputs": ["o1"], "defaults": {}}]
             yield {"nodes": nodes, "n_ops": rng.randint(0, 2), "seed": rng.randint(0, 10**6), "prefix": ["addGate", "entryTarget"],
                    "lateGate": {"name": "gt", "target": tgt, "k": rng.choice([0, 1])}}
-        for prefix in (["asNode", "swapInputs"], ["asNode", "mapOver", "swapInputs"], ["asNode", "swapOutputs"], ["asNode", "swapInputs", "swapInputs"]):
+        for prefix in (["asNode", "withName"], ["asNode", "swapInputs"], ["asNode", "mapOver", "swapInputs"], ["asNode", "swapOutputs"], ["asNode", "swapInputs", "swapInputs"]):
             nodes = [{"name": "f0", "inputs": ["x", "y0"], "outputs": ["o0"], "defaults": {}},
                      {"name": "f1", "inputs": ["o0", "y1"], "outputs": ["o1"], "defaults": {"y1": rng.randint(20, 29)} if rng.random() < 0.5 else {}}]
             yield {"nodes": nodes, "n_ops": rng.randint(2, 4), "seed": rng.randint(0, 10**6), "prefix": prefix}
@@ -254,6 +262,13 @@ class C07(Prop):
                 choice = rng.choice(["bind", "bind", "unbind", "select", "withEntrypoint", "asNode", "readInputs", "readHash", "addNode", "addNode", "addNone"])
                 if force is not None:
                     choice = force
+                if choice.startswith("bind:"):
+                    k = choice.split(":", 1)[1]
+                    v = rng.randint(0, 9)
+                    return {"t": "bind", "i": i, "k": k, "v": v}, recv.bind(**{k: v})
+                if choice.startswith("unbind:"):
+                    k = choice.split(":", 1)[1]
+                    return {"t": "unbind", "i": i, "k": k}, recv.unbind(k)
                 if choice == "bind":
                     cands = list(spec.required) + list(spec.optional)
                     if rng.random() < 0.25:
